@@ -95,6 +95,52 @@ def run(ctx):
                        "replay_cmd": "echo '%s' | build/target/debug/c22" % cc.run_line(p, "fn", "main", fa, a)})
     ctx.oblige("oracle:L3:impl-run=reference-semantics", not mism3, "%d disagreeing runs" % len(mism3))
 
+    # ---------------- the boolean-nesting family: small shapes over !, &&, ||, comparisons, `is Some`, every assignment
+    fam = cg.bool_family(ctx.rng, thorough)
+    assigns = cg.bool_assignments()
+    fam_lines = [cc.compile_line(p) for (p, shapes) in fam] + [cc.run_line(p, "fn", "main", 0, a) for (p, shapes) in fam for a in assigns]
+    resf, err = cc.run_harness(vlib, binp, fam_lines)
+    if resf is None:
+        ctx.oblige("harness:run:bool-family", False, err)
+        return
+    fam_l1 = [(p, l) for ((p, shapes), l) in zip(fam, resf[:len(fam)]) if l.startswith("ok ") or l.startswith("err ")]
+    fam_rejected = [l for l in resf[:len(fam)] if not l.startswith("ok ")]
+    mismf, cerr = cc.coq_mismatches(vlib, ctx, "c22_fam_l1", cc.COQ_HEADER, fam_l1, cc.l1_render, shard=8)
+    if mismf is None:
+        ctx.oblige("correspondence:L1:model-eval", False, cerr)
+        return
+    ctx.oblige("correspondence:L1:bool-family-compile-output", not mismf and not fam_rejected,
+               "model and compiler differ on %d family policies (first: %s); rejected: %s" % (
+                   len(mismf), cc.policy_text(fam_l1[mismf[0]][0])[:1500] if mismf else "", fam_rejected[:2]))
+    fam_runs, fam_wrong = [], []
+    k = len(fam)
+    for (p, shapes) in fam:
+        for a in assigns:
+            l = resf[k]
+            k += 1
+            if l == "panic" or l.startswith("parse-err") or l.startswith("compile-err"):
+                continue
+            ex, top, depth_, log = cc.run_result(l)
+            fam_runs.append((p, a, 0, (ex, top, log)))
+            want = sum((1 << i) for i, s in enumerate(shapes) if cg.bool_eval(s, a))
+            if (ex, top) != ("normal", "I%d" % want):
+                bad = [i for i, s in enumerate(shapes) if top and top.startswith("I") and ((int(top[1:]) >> i) & 1) != int(cg.bool_eval(s, a))]
+                fam_wrong.append((p, shapes, a, ex, top, want, bad))
+    for (p, shapes, a, ex, top, want, bad) in fam_wrong[:3]:
+        i = bad[0] if bad else 0
+        ctx.violation("compiled code does not compute the language semantics: a boolean expression evaluates to the wrong value",
+                      {"function": cc.policy_text({**p, 'funs': [p['funs'][j] for j in range(len(p['funs'])) if p['funs'][j]['name'] == 'b%d' % i]}),
+                       "args": [cc.val_text(x) for x in a], "expected_value": bool(cg.bool_eval(shapes[i], a)),
+                       "impl": {"exit": ex, "main_returned_bitmask": top, "expected_bitmask": want, "wrong_bits": bad[:8]},
+                       "contradicts": "compile_correct (coq/props/C22.v); expected value by the operator semantics of Lang.v",
+                       "replay_cmd": "echo '%s' | build/target/debug/c22" % cc.run_line(p, "fn", "main", 0, a)})
+    ctx.oblige("oracle:L3:bool-family-values", not fam_wrong, "%d runs with a wrong value" % len(fam_wrong))
+    mismf3, cerr = cc.coq_mismatches(vlib, ctx, "c22_fam_l3", cc.COQ_HEADER, fam_runs, cc.l3_fn_render, shard=60)
+    if mismf3 is None:
+        ctx.oblige("correspondence:L3:model-eval", False, cerr)
+        return
+    ctx.oblige("oracle:L3:bool-family-impl-run=reference-semantics", not mismf3, "%d disagreeing runs" % len(mismf3))
+
     # ---------------- the recorded open finding F23 (struct-literal patterns with permuted fields)
     res4, _ = cc.run_harness(vlib, binp, ["R %s fn f 0 TS{a=B0,b=B1} -" % F23_POLICY.encode().hex()])
     if res4 and res4[0].startswith("normal|I1|"):
@@ -106,8 +152,8 @@ def run(ctx):
     for p in l1_cases[::2]:
         cc.constructs(p['funs'], cons)
     ctx.coverage.update({
-        "traces_validated_against_impl": len(usable) + len(runs),
-        "evaluations": len(usable) + len(runs),
+        "traces_validated_against_impl": len(usable) + len(runs) + len(fam_l1) + len(fam_runs),
+        "evaluations": len(usable) + len(runs) + len(fam_l1) + len(fam_runs),
         "distinct_nontrivial": len({cc.policy_text(p) for (p, l) in usable if l.startswith("ok ") and cc.count_nodes(p['funs']) > 60})
                                + len({(cc.policy_text(p), tuple(cc.val_text(x) for x in a)) for (p, a, fa, r) in runs if cc.count_nodes(p['funs']) > 60}),
         "rule": "L1 case = one policy (every second one mutated once); L3 case = (policy, argument values, FFI failure point); non-trivial = AST of the functions has more than 60 nodes; distinct by policy text (+ arguments)",
@@ -115,6 +161,8 @@ def run(ctx):
             "l1_programs": len(usable), "l1_accepted": accepted, "l1_rejected_by_class": err_classes, "l1_mutation_kinds": kinds,
             "l1_unusable_harness_lines": len(bad_lines),
             "l3_runs": len(runs), "l3_exit_reasons": exits, "nesting_depth": depth,
+            "bool_family": {"shapes": sum(len(sh) for (_, sh) in fam), "policies": len(fam), "assignments_per_shape": len(assigns),
+                            "runs": len(fam_runs), "exhaustive_to_depth": 2 if thorough else 1},
             "constructs_in_unmutated_l1_programs": cons,
         },
         "samples": [{"policy": cc.policy_text(p)[:600], "args": [cc.val_text(x) for x in a], "impl": {"exit": r[0], "top": r[1], "log": r[2]}}
